@@ -1,7 +1,7 @@
 """C16 - `$PWD`, the process directory and the directory stack stay in step.
 
 Generator : a Hypothesis RuleBasedStateMachine issues histories of the real `cd` / `pushd` / `popd` /
-            `dirs` aliases (half of the commands as `XSH.aliases[name](args)`, half through
+            `dirs` aliases (two thirds of the commands as `XSH.aliases[name](args)`, a third through
             `Execer.exec("_r = !(cd x)")`) on a scratch tree with nested directories, symlinks to
             directories (one pointing upwards), a directory named `-`, one named `+1`, one with a blank,
             a regular file, a dangling link, a directory that a rule removes and recreates, and - when the
@@ -77,6 +77,10 @@ def build_tree(root):
         f.write("x\n")
     for name, target in TREE_LINKS:
         os.symlink(target, os.path.join(root, name))
+    lock_tree(root)
+
+
+def lock_tree(root):
     os.chmod(os.path.join(root, "noexec"), 0o600)
     os.chmod(os.path.join(root, "noperm"), 0o000)
     os.chmod(os.path.join(root, "locked"), 0o000)
@@ -178,21 +182,43 @@ class Model:
         $PWD/w (bash default, what xonsh's abspath() does), the physical reading lets the OS resolve w
         from the real working directory (what `-P`, isdir() and chdir() do).  strict: every reading
         names an accessible directory, i.e. the command must succeed."""
-        L = os.path.normpath(os.path.join(self.pwd, w))
-        P = rp(os.path.join(rp(self.pwd), w))
+        L, P = self.logical(w), self.physical(w)
+        okL, okP = L is not None and acc(L), P is not None and acc(P)
         if physical:
-            return ([P], True) if acc(P) else ([], False)
+            return ([P], True) if okP else ([], False)
         c = []
-        if acc(L):
+        if okL:
             c.append(rp(L))
-        if acc(P) and P not in c:
+        if okP and P not in c:
             c.append(P)
-        return c, acc(L) and acc(P)
+        return c, okL and okP
+
+    def logical(self, w):
+        """POSIX cd step 8: `..` removes the preceding component textually, provided that what precedes
+        it names a directory.  -> path or None"""
+        cur = []
+        for comp in os.path.join(self.pwd, w).split("/"):
+            if comp in ("", "."):
+                continue
+            if comp == "..":
+                if not os.path.isdir("/" + "/".join(cur)):
+                    return None
+                if cur:
+                    cur.pop()
+            else:
+                cur.append(comp)
+        return "/" + "/".join(cur)
+
+    def physical(self, w):
+        """what the OS makes of w, seen from the real working directory.  -> real path or None"""
+        try:
+            return os.path.realpath(os.path.join(rp(self.pwd), w), strict=True)
+        except OSError:
+            return None
 
     def local_isdir(self, w):
-        L = os.path.normpath(os.path.join(self.pwd, w))
-        P = rp(os.path.join(rp(self.pwd), w))
-        return os.path.isdir(L) or os.path.isdir(P)
+        L, P = self.logical(w), self.physical(w)
+        return (L is not None and os.path.isdir(L)) or (P is not None and os.path.isdir(P))
 
     def trunc(self, stack):
         return list(stack[: self.size])
@@ -284,10 +310,11 @@ class Model:
                 j = os.path.join(cdp, w)
                 if first_exists is None and os.path.lexists(j):
                     first_exists = j
-                if acc(j):
-                    strict = (j == first_exists and not w.startswith(".") and not self.local_isdir(w)
+                cj, sj = self.resolve(j, phys)
+                if cj:
+                    strict = (sj and j == first_exists and not w.startswith(".") and not self.local_isdir(w)
                               and not os.path.lexists(os.path.join(self.pwd, w)))
-                    alts = self._moves([rp(j)], strict, pushed, phys)
+                    alts = self._moves(cj, strict, pushed, phys)
                     break
         if not alts:
             alts = [FAIL, {"kind": "swallow", "stacks": sw, "known": F2}]
@@ -334,7 +361,7 @@ class Model:
             return {"kind": "ok", "target": None, "physical": False, "oldpwd": "keep",
                     "stack": ("perm", list(self.stack), min(len(self.stack), self.size))}
 
-        def rotate(idx):
+        def rotate(idx, exchange=False):
             out = []
             if idx == 0:
                 out.append({"kind": "ok", "target": None, "physical": False, "oldpwd": "either",
@@ -345,8 +372,8 @@ class Model:
                 # rotation is impossible; bash and xonsh differ - any order of the same entries
                 return [any_order()], True
             c, s = self.resolve(dirs[idx])
-            rot = self.trunc(dirs[idx + 1:] + dirs[:idx])
             ext = self.trunc(dirs[:idx] + dirs[idx + 1:])
+            rot = ext if exchange else self.trunc(dirs[idx + 1:] + dirs[:idx])
             for x in c:
                 out.append({"kind": "ok", "target": x, "physical": False, "oldpwd": "old", "stack": rot})
                 if ext != rot:
@@ -361,7 +388,7 @@ class Model:
                 return [FAIL], quiet
             if nocd:
                 return [any_order()], quiet
-            a, s = rotate(1)      # "With no arguments, pushd exchanges the top two elements"
+            a, s = rotate(1, exchange=True)   # "With no arguments, pushd exchanges the top two elements"
             return a + ([] if s else [FAIL]), quiet
         w = pos[0]
         strict = True
@@ -385,8 +412,9 @@ class Model:
             c, s = self.resolve(w)
             if not c and self.cdpath and not os.path.isabs(w):
                 for cdp in self.cdpath:
-                    if acc(os.path.join(cdp, w)):
-                        c, s = [rp(os.path.join(cdp, w))], False
+                    cj, _ = self.resolve(os.path.join(cdp, w))
+                    if cj:
+                        c, s = cj, False
                         break
         if c or self.local_isdir(w):
             have = True
@@ -397,10 +425,10 @@ class Model:
                                  "stack": self.trunc([("names", x, self.pwd)] + self.stack)})
                 if self.local_isdir(w) and not c:
                     # remembering a directory that cannot be entered is not an error of `pushd -n`
-                    L = os.path.normpath(os.path.join(self.pwd, w))
-                    alts.append({"kind": "ok", "target": None, "physical": False, "oldpwd": "keep",
-                                 "stack": self.trunc([("names", rp(L), self.pwd)] + self.stack)})
-                    strict = True
+                    for x in (self.logical(w), self.physical(w)):
+                        if x is not None and os.path.isdir(x):
+                            alts.append({"kind": "ok", "target": None, "physical": False, "oldpwd": "keep",
+                                         "stack": self.trunc([("names", rp(x), self.pwd)] + self.stack)})
             else:
                 psh = self.trunc([self.pwd] + self.stack)
                 for x in c:
@@ -458,7 +486,8 @@ class Model:
             idx = self._index(w, len(dirs))
             if idx is None:
                 return ("fail",)
-            return ("print", shown[idx])
+            # bash prints the index too under -v; xonsh only the entry
+            return ("contains" if "-v" in fl else "print", shown[idx])
         if "-v" in fl:
             return ("verbose", shown)
         if "-p" in fl:
@@ -474,16 +503,18 @@ _state = {}
 
 def _setup(scratch):
     """Once per process: session, tree, permission enforcement."""
-    if _state:
-        return _state
     from vlib import session
 
     root = os.path.join(os.path.realpath(scratch), "tree")
+    if _state.get("root") == root:
+        lock_tree(root)
+        _state["perm"] = perm_enforced(root)
+        return _state
     _drop_dac()
     build_tree(root)
+    lock_tree(root)
     home = os.path.join(root, "home")
-    os.environ["HOME"] = home       # dirs_fn abbreviates with expanduser('~'), cd uses $HOME: keep them equal
-    _state["start_cwd"] = os.getcwd()
+    _state.setdefault("start_cwd", os.getcwd())
     _state["root"] = root
     _state["home"] = home
     _state["scratch"] = scratch
@@ -504,6 +535,12 @@ def _quote(a):
     if re.fullmatch(r"[A-Za-z0-9_./+\-]+", a):
         return a
     return "'" + a + "'"
+
+
+def needs_perm(ops):
+    """Does the history touch the directories whose behaviour depends on real permission checks?"""
+    text = json.dumps(ops)
+    return any(w in text for w in ("noexec", "noperm", "locked"))
 
 
 class History:
@@ -529,6 +566,7 @@ class History:
         if not os.path.isdir(gone):
             os.mkdir(gone)
         os.chdir(self.root)
+        os.environ["HOME"] = self.home   # dirs_fn abbreviates with expanduser('~'), cd uses $HOME: keep them equal
         self.XSH = session.load_session(st["scratch"], HOME=self.home, PWD=self.root)
         env = self.XSH.env
         for k in ("OLDPWD",):
@@ -541,6 +579,7 @@ class History:
         env["DIRSTACK_SIZE"] = 20
         ds.DIRSTACK = []
         self.m = Model(self.root, self.home)
+        self.m.oldpwd = env.get("OLDPWD")      # xonsh's registered default is "."
 
     def close(self):
         self.ds.DIRSTACK = []
@@ -560,7 +599,7 @@ class History:
                 "stack": list(self.ds.DIRSTACK)}
 
     def bad(self, kind, detail, finding=None, bucket=None):
-        case = {"ops": list(self.ops), "perm": bool(_state.get("perm"))}
+        case = {"ops": list(self.ops), "perm": needs_perm(self.ops)}
         raise Mismatch(Failure(kind, case, detail, finding=finding, bucket=bucket))
 
     def run_cmd(self, name, args, via):
@@ -856,7 +895,11 @@ class History:
             self.bad("state-differs", "%s changed the state: %s -> %s" % (what, json.dumps(before), json.dumps(after)),
                      bucket="dirs-changes")
         text = out.rstrip("\n")
-        if plan[0] == "print":
+        if plan[0] == "contains":
+            if not text.endswith(plan[1]):
+                self.bad("output", "%s printed %r, the documented selection is %r (stack %r)"
+                         % (what, text, plan[1], self.m.dirs()), bucket="output:dirs")
+        elif plan[0] == "print":
             if text != plan[1]:
                 self.bad("output", "%s printed %r, the documented selection/listing is %r (stack %r)"
                          % (what, text, plan[1], self.m.dirs()), bucket="output:dirs")
@@ -995,6 +1038,8 @@ class History:
         self._note_outcome(hit, alts, lab)
         if hit["kind"] != "ok" or hit["target"] is None:
             return
+        if after["stack"] != m.trunc([snap[0]] + snap[1]):
+            return      # the word was read as +N (rotation), not as a directory
         if len(after["stack"]) > snap[2]:
             self.bad("stack-too-long", "%s: %d entries, $DIRSTACK_SIZE=%d" % (what, len(after["stack"]), snap[2]))
         alts, _ = m.plan_popd(["-q"])
@@ -1003,7 +1048,7 @@ class History:
         if hit2["kind"] != "ok":
             self.bad("roundtrip", "%s succeeded but the following popd did not: rc=%r %r" % (what, rc2, err2.strip()[:200]))
         want_stack = snap[1] if len(snap[1]) < snap[2] else snap[1][: max(snap[2] - 1, 0)]
-        if after2["pwd"] != snap[0] or after2["stack"] != want_stack:
+        if rp(after2["pwd"]) != rp(snap[0]) or after2["stack"] != want_stack:
             self.bad("roundtrip", "%s; popd: $PWD %r -> %r, stack %r -> %r ($DIRSTACK_SIZE=%d)"
                      % (what, snap[0], after2["pwd"], snap[1], after2["stack"], snap[2]))
         lab.append("roundtrip:done")
@@ -1024,9 +1069,9 @@ def make_machine():
     ab = ABS + (PERM_ABS if perm else [])
     words = st.sampled_from(rel + ab)
     abs_words = st.sampled_from(ab)
-    via = st.sampled_from(["direct", "exec"])
+    via = st.sampled_from(["direct", "direct", "exec"])
     nums = st.builds(lambda s, n: "%s%d" % (s, n), st.sampled_from("+-"), st.integers(0, 6))
-    bad_nums = st.sampled_from(["+", "+x", "-x", "3", "+-1", "+1.5", "++1", "1+", "-1x", "+99", "-99"])
+    bad_nums = st.sampled_from(["+", "+x", "-x", "3", "+1.5", "1+", "-1x", "+99", "-99"])
     push_flags = st.lists(st.sampled_from(["-n", "-q"]), max_size=2, unique=True)
 
     class DirMachine(RuleBasedStateMachine):
@@ -1046,7 +1091,6 @@ def make_machine():
             stats.hist["steps"] += len(h.ops)
             for lab in h.labels:
                 stats.hist[lab] += 1
-            stats.hist["max-depth:%d" % min(_ctx.get("maxdepth", 0), 8)] += 0
             for fid in h.tolerated:
                 stats.excluded_known[fid] += 1
 
@@ -1069,7 +1113,7 @@ def make_machine():
         @rule(a=st.one_of(st.just([]), st.just(["-"]), st.just(["-"]), st.just(["-P"]), st.just(["-P", "-"]),
                           st.builds(lambda n: ["-%d" % n], st.integers(0, 6)),
                           st.builds(lambda n: ["-P", "-%d" % n], st.integers(1, 4)),
-                          st.sampled_from([["a", "d"], ["-x"], ["--"], ["-1x"], ["-P", "a", "b"], ["a", "-P"]])),
+                          st.sampled_from([["a", "d"], ["-x"], ["-1x"], ["-P", "a", "b"], ["a", "-P"]])),
               v=via)
         def cd_special(self, a, v):
             self.do({"op": "cd", "args": list(a), "via": v})
@@ -1095,6 +1139,10 @@ def make_machine():
               f=push_flags, v=via)
         def popd(self, n, f, v):
             self.do({"op": "popd", "args": list(f) + ([n] if n else []), "via": v})
+
+        @rule(n=st.one_of(st.none(), st.sampled_from(["+0", "+1", "-0", "+2"])), v=via)
+        def popd_plain(self, n, v):
+            self.do({"op": "popd", "args": [n] if n else [], "via": v})
 
         @rule(f=st.lists(st.sampled_from(["-p", "-v", "-l"]), max_size=2, unique=True),
               n=st.one_of(st.none(), st.none(), nums, nums, bad_nums), v=via)
@@ -1142,7 +1190,7 @@ def worker_machine(arg):
     _ctx.clear()
     _ctx.update(open_ids=set(open_ids), stats=stats, failed=False)
     try:
-        exc = common.run_machine(make_machine(), seed, n_examples, steps, shrink=True, shrink_seconds=40)
+        exc = common.run_machine(make_machine(), seed, n_examples, steps, shrink=True, shrink_seconds=15)
     finally:
         try:
             os.chdir(_state["start_cwd"])
@@ -1150,12 +1198,15 @@ def worker_machine(arg):
             os.chdir("/")
     f = common.machine_failure(exc, "C16 directory machine")
     if f is not None:
-        # confirm the shrunk history without Hypothesis, in strict mode apart from the open findings
+        # confirm the shrunk history without Hypothesis and drop the operations that do not matter
+        # (Hypothesis' shrinker is slow on long histories; replaying a history costs milliseconds)
         g = check_history(f.case, open_ids)
-        stats.fail(g if g is not None else f)
         if g is None:
             stats.notes.append("shrunk history did not fail again on replay (kept the original failure): %s"
                                % json.dumps(f.case)[:300])
+            stats.fail(f)
+        else:
+            stats.fail(minimize_ops(g, open_ids))
     if not _state["perm"]:
         stats.notes.append("permission-failure class skipped: this process can enter directories without "
                            "search permission (capabilities could not be dropped)")
@@ -1167,8 +1218,8 @@ def worker_machine(arg):
 
 def check_history(case, open_ids=()):
     """Re-execute {'ops': [...]} without Hypothesis.  -> Failure | None"""
-    if case.get("perm") and not _state.get("perm"):
-        raise common.HarnessError("this history needs real permission checks, which this process cannot provide")
+    if needs_perm(case["ops"]) and not _state.get("perm"):
+        return None     # cannot be decided here; worker_replay reports it as skipped
     h = History(open_ids)
     try:
         try:
@@ -1181,12 +1232,38 @@ def check_history(case, open_ids=()):
     return None
 
 
+def minimize_ops(failure, open_ids=()):
+    """Greedy one-at-a-time removal of operations while the same bucket still fails."""
+    best = failure
+    ops = list(failure.case["ops"])
+    changed = True
+    rounds = 0
+    while changed and rounds < 6:
+        changed = False
+        rounds += 1
+        i = len(ops) - 2            # the last operation is the failing one
+        while i >= 0:
+            trial = ops[:i] + ops[i + 1:]
+            g = check_history({"ops": trial}, open_ids)
+            if g is not None and g.bucket == failure.bucket and g.kind == failure.kind and \
+                    len(g.case["ops"]) <= len(trial):
+                ops = list(g.case["ops"])
+                best = g
+                changed = True
+                i = min(i, len(ops) - 1)
+            i -= 1
+    return best
+
+
 def worker_replay(arg):
     cases, scratch = arg
     _setup(scratch)
     out = []
     try:
         for case in cases:
+            if needs_perm(case["ops"]) and not _state["perm"]:
+                out.append("skipped")
+                continue
             f = check_history(case, ())
             out.append(None if f is None else f.to_json())
     finally:
@@ -1199,7 +1276,15 @@ def worker_replay(arg):
 
 def _replays_in_worker(run, cases):
     res = common.pool_map(run, __name__, "worker_replay", [(cases, os.path.join(run.scratch, "replay"))], procs=1)
-    return [None if r is None else Failure.from_json(r) for r in res[0]["results"]]
+    out = []
+    for r in res[0]["results"]:
+        if r == "skipped":
+            run.stats.inconclusive += 1
+            run.stats.notes.append("a committed replay needs real permission checks, which this process cannot "
+                                   "provide: skipped")
+            r = None
+        out.append(None if r is None else Failure.from_json(r))
+    return out
 
 
 def main(run):
@@ -1223,7 +1308,7 @@ def main(run):
 
     open_ids = sorted(run.known_open)
     nw = 8 if run.tier == "quick" else 16
-    total = run.n(1600, 60000)
+    total = run.n(1200, 60000)
     steps = run.n(40, 60)
     per = total // nw
     common.pool_map(run, __name__, "worker_machine",
